@@ -78,17 +78,24 @@ func (l *Lexer) NextToken() (lexer.Token, error) {
 	for curr, next := 0, 0; ; curr = next {
 		// Read the next character from the input stream.
 		r, err := l.in.Next()
-		if err != nil {
+		if err != nil && (curr == 0 || !errors.Is(err, io.EOF)) {
 			return lexer.Token{}, err
 		}
 
-		// Keep running the DFA through the input symbols.
-		next = advanceDFA(curr, r)
+		if err != nil {
+			// The end of the input ends the current token, like a character that does not belong to it.
+			next = errorState
+		} else {
+			// Keep running the DFA through the input symbols.
+			next = advanceDFA(curr, r)
+
+			if next == errorState {
+				// Retract one character, as the last read character did not belong to the current token.
+				l.in.Retract()
+			}
+		}
 
 		if next == errorState {
-			// Retract one character, as the last read character did not belong to the current token.
-			l.in.Retract()
-
 			// Evaluate the final state of the DFA.
 			token := l.evalDFA(curr)
 
